@@ -6,7 +6,9 @@ virtual clock) with 1-3 scripted observers, against the Lean observe-server mode
 sequence the implementation executed — including the order in which asyncio ran the render tasks,
 which is hash-dependent when `updated_state` iterates its set — is replayed on the model; every
 datagram, pipe event, `update_observation_count` call, cancellation callback and render start must
-agree, in order.  Oracle: harness/c08_oracle.py (RFC 7641 section 4 read independently).
+agree, in order.  Oracle: harness/c08_oracle.py (RFC 7641 section 4 read independently); it judges the
+latest state also for registrations that ended by a last-marked notification (the final notification must be as new
+as the last change before it) and looks at retransmissions, not only first transmissions, after the end.
 """
 import multiprocessing
 import os
@@ -22,7 +24,12 @@ RULE = ("corpus, then a boundary table enumerated in full (CON/NON registrations
         "suspended render / mixed with explicit responses; every observer reaction ACK, Reset, silence, "
         "re-registration, deregistration, plain GET on the token x the phase of the render task (idle, rendering, "
         "woken, notification queued); acknowledgement of the k-th copy; transport error and shutdown in every "
-        "phase; 2-3 observers incl. shared response objects; unsuccessful/raising/last notifications; Reset of "
+        "phase; 2-3 observers incl. shared response objects; unsuccessful/raising/last notifications; "
+        "trigger(..., is_last=True) x the phase of the render task when it arrives (idle; the previous change's render "
+        "suspended, with the final render immediate / suspended / failing, after an update or a single trigger; a second "
+        "plain or last-marked change in the same window; during the FINAL render; woken before/after another change; "
+        "earlier notifications unacknowledged or queued; during the first render) x rendered / explicit final message x "
+        "CON / NON x one or two observers; Reset of "
         "a NON notification; duplicates and noise; a resource whose add_observation suspends after accepting x every "
         "ending cause inside and after that window - oracle only), then random scripts from env.rng. Non-trivial: at least one "
         "notification beyond the first response was put on a pipe, or a registration ended.")
@@ -76,7 +83,7 @@ def run(env, rep):
     scripts += table
     scripts += [G.random_script(env.rng, i) for i in range(env.scale(1200, 30000))]
     results = run_scripts(env, scripts)
-    lines, cases, impl = [], [], []
+    lines, cases, impl, fails = [], [], [], []
     for res in results:
         script = res["script"]
         tag = script.get("tag", "")
@@ -96,7 +103,11 @@ def run(env, rep):
             if key in seen:
                 continue
             seen.add(key)
-            rep.oracle_fail(case, verdict, key=key)
+            fails.append((case, key, verdict))
+        want = script.get("finding_key")
+        if want:
+            # a corpus replay of a recorded known finding: say whether the oracle still sees it
+            rep.count(("known-finding-reproduced:" if want in seen else "known-finding-NOT-reproduced:") + want)
         if script.get("slow_add"):
             rep.count("oracle-only:add_observation-suspends")
             continue
@@ -106,6 +117,20 @@ def run(env, rep):
         lines.append("C08 " + " ".join(res["args"]))
         cases.append(case)
         impl.append(res["impl_line"])
+    # Report keeps the first 50 failures only: one failure of every distinct key that is not a recorded known
+    # finding goes first, then a few of every known finding (not one per script that runs into it), then the rest
+    known = _known_keys()
+    heads, kn, rest, per_key = [], [], [], {}
+    for f in fails:
+        per_key[f[1]] = per_key.get(f[1], 0) + 1
+        if f[1] in known:
+            rep.count("known-finding-seen:" + f[1])
+            if per_key[f[1]] <= 3:
+                kn.append(f)
+        else:
+            (heads if per_key[f[1]] == 1 else rest).append(f)
+    for case, key, verdict in heads + kn + rest:
+        rep.oracle_fail(case, verdict, key=key)
     outs = env.lean(lines)
     for case, line, m, i in zip(cases, lines, outs, impl):
         if m == "bad-op":
